@@ -269,6 +269,18 @@ pub fn gen_world(prop: &str, flavor: Flavor, seed: u64, index: u64, tier: Tier) 
                     m.answers.push(r);
                 }
             }
+            if rng.below(3) == 0 {
+                // what a browser that knows several instances sends: records of other hosts with the same owner name and
+                // type, listed before (or after) the daemon's own
+                let others = vec![Rec::ptr(&Name::from_dotted(&base), &Name::from_dotted(&format!("somebody else.{base}")), 4500), Rec::ptr(&Name::from_dotted(&base), &Name::from_dotted(&format!("a third one.{base}")), 2000)];
+                for (k, o) in others.into_iter().enumerate() {
+                    if rng.bool() {
+                        m.answers.insert(0, o);
+                    } else if k == 0 {
+                        m.answers.push(o);
+                    }
+                }
+            }
             if rng.below(6) == 0 {
                 // known answer placed in the wrong section: must not suppress
                 let ka = std::mem::take(&mut m.answers);
